@@ -33,6 +33,9 @@ func BuildExpr(t *rapid.T, label string, v val.V) string {
 		for i, e := range v.L {
 			es[i] = BuildExpr(t, label+"e", e)
 		}
+		if len(es) == 0 && rapid.Bool().Draw(t, label+"emptyl") {
+			return rapid.SampledFrom([]string{"(list)", "(rest nil)", "(rest [1])", "(concat)", "(concat [] ())", "(take 0 [1])", "(drop 1 [1])", "(rest (list 1))", "(apply list [])"}).Draw(t, label+"emptylx")
+		}
 		c := rapid.IntRange(0, 6).Draw(t, label+"lc")
 		switch {
 		case c == 0:
@@ -54,6 +57,9 @@ func BuildExpr(t *rapid.T, label string, v val.V) string {
 		es := make([]string, len(v.L))
 		for i, e := range v.L {
 			es[i] = BuildExpr(t, label+"e", e)
+		}
+		if len(es) == 0 && rapid.Bool().Draw(t, label+"emptyv") {
+			return rapid.SampledFrom([]string{"(vector)", "(vec ())", "(vec [])", "(subvec [1] 0 0)", "(subvec [1] 1)", "(apply vector ())", "(vec (rest [1]))"}).Draw(t, label+"emptyvx")
 		}
 		c := rapid.IntRange(0, 5).Draw(t, label+"vc")
 		switch {
@@ -80,6 +86,9 @@ func BuildExpr(t *rapid.T, label string, v val.V) string {
 			e := BuildExpr(t, label+"mv", v.M[k])
 			kv = append(kv, val.KeySource(k), e)
 			pairs[i] = val.KeySource(k) + " " + e
+		}
+		if len(keys) == 0 && rapid.Bool().Draw(t, label+"emptym") {
+			return rapid.SampledFrom([]string{"(hash-map)", "(dissoc {:a 1} :a)", "(merge {} nil)", "(dissoc (hash-map :a 1 :b 2) :b :a)", "(apply hash-map [])", "(dissoc {} :a)", "(merge {} {})"}).Draw(t, label+"emptymx")
 		}
 		c := rapid.IntRange(0, 6).Draw(t, label+"mc")
 		switch {
@@ -112,6 +121,9 @@ func BuildExpr(t *rapid.T, label string, v val.V) string {
 		src := make([]string, len(ks))
 		for i, k := range ks {
 			src[i] = val.KeySource(k)
+		}
+		if len(src) == 0 && rapid.Bool().Draw(t, label+"emptys") {
+			return rapid.SampledFrom([]string{"(set nil)", "(set [])", "(set ())", "(hash-set)", "(set (list))", "(apply hash-set [])", "(set (rest [1]))"}).Draw(t, label+"emptysx")
 		}
 		c := rapid.IntRange(0, 5).Draw(t, label+"sc")
 		switch {
